@@ -74,16 +74,21 @@ Definition fuel_ok0 {X} (s : str) (r : res (X * state)) : Prop :=
   | _ => True
   end.
 
+Lemma required_no_fuel ps ae s ln : required ps ae s ln <> OutOfFuel.
+Proof.
+  unfold required. destruct (get_token ps ae s ln) as [[o st]|? ?| |] eqn:E2; cbn [bind]; try discriminate.
+  - destruct (fst (o, st)); discriminate.
+  - unfold get_token in E2. destruct (eat_whitespace s ln) as [r l0]. destruct r; [destruct ae; discriminate|].
+    destruct (first_match ps (c :: r)) as [[[? ?] ?]|]; discriminate.
+Qed.
+
 Lemma parse_args_fuel fuel : forall n s ln, (length s < fuel)%nat -> fuel_ok0 s (parse_args fuel n s ln).
 Proof.
   induction n as [|k IH]; intros s ln Hf; [cbn; lia|].
-  cbn [parse_args]. unfold optional.
-  destruct (get_token [P_LBRACE] false s ln) as [[o [s1 ln1]]|c l| |] eqn:E; cbn [bind fuel_ok0]; auto.
-  2:{ unfold get_token in E. destruct (eat_whitespace s ln) as [r l0]. destruct r; [discriminate|].
-      destruct (first_match [P_LBRACE] (c :: r)) as [[[? ?] ?]|]; discriminate. }
-  apply get_token_len in E as (Hle & Hlt & _).
-  destruct o as [t|]; [|cbn; lia].
-  specialize (Hlt ltac:(discriminate)).
+  cbn [parse_args].
+  destruct (required [P_LBRACE] false s ln) as [[[p v] [s1 ln1]]|c l| |] eqn:E; cbn [bind fuel_ok0]; auto.
+  2:{ eapply required_no_fuel; exact E. }
+  apply required_len in E.
   pose proof (parse_group_fuel fuel s1 ln1 ltac:(lia)) as Hg.
   destruct (parse_group fuel s1 ln1) as [[grp [s2 ln2]]|c l| |]; cbn [bind fuel_ok fuel_ok0] in *; auto.
   pose proof (IH s2 ln2 ltac:(lia)) as Ha.
